@@ -41,7 +41,7 @@ func collectCandidates(all []*Term, focus []*Term) *preinst {
 	intSeen := map[string]bool{}
 	addInt := func(t *Term) {
 		k := t.String()
-		if !intSeen[k] && len(p.ints) < 36 {
+		if !intSeen[k] && len(p.ints) < 44 {
 			intSeen[k] = true
 			p.ints = append(p.ints, t)
 		}
@@ -93,6 +93,16 @@ func collectCandidates(all []*Term, focus []*Term) *preinst {
 						}
 					} else if _, isC := idx.IntVal(); !isC {
 						addInt(idx)
+					}
+					// constant byte positions of the focus (x[0], x[4] ...)
+					if level == 0 {
+						if !idx.IsSym && idx.Op == "+" && len(idx.Args) == 2 {
+							if n, isC := idx.Args[1].IntVal(); isC && n >= 0 && n < 24 {
+								addInt(idx.Args[1])
+							}
+						} else if n, isC := idx.IntVal(); isC && n >= 0 && n < 24 {
+							addInt(idx)
+						}
 					}
 				}
 			})
@@ -146,13 +156,6 @@ func (p *preinst) walk(ctx []*Term, t *Term, depth int) {
 		}
 	case "=>":
 		p.walk(append(append([]*Term{}, ctx...), t.Args[0]), t.Args[1], depth)
-	case "streq":
-		// content equality hides a quantifier over byte positions
-		a, b := t.Args[0], t.Args[1]
-		p.emit(ctx, Eq(SLen(a), SLen(b)))
-		for _, c := range p.ints {
-			p.emit(ctx, Imp(And(Le(IntLit(0), c), Lt(c, SLen(a))), Eq(SAt(a, c), SAt(b, c))))
-		}
 	case "forall":
 		if len(t.Bound) != 1 {
 			return
@@ -177,6 +180,14 @@ func (p *preinst) walk(ctx []*Term, t *Term, depth int) {
 						for _, ga := range p.apps[x.Op] {
 							if ai < len(ga) && ga[ai].S == b.S {
 								cands[ga[ai].String()] = ga[ai]
+							}
+						}
+					}
+					// f(.., sid(v), ..): candidates are the T of ground f(.., sid(T), ..)
+					if !a.IsSym && a.Op == "sid" && len(a.Args) == 1 && len(a.Args[0].Args) == 0 && !a.Args[0].IsSym && a.Args[0].Op == b.Name {
+						for _, ga := range p.apps[x.Op] {
+							if ai < len(ga) && !ga[ai].IsSym && ga[ai].Op == "sid" && len(ga[ai].Args) == 1 && ga[ai].Args[0].S == b.S {
+								cands[ga[ai].Args[0].String()] = ga[ai].Args[0]
 							}
 						}
 					}
@@ -234,15 +245,47 @@ func hasQuantStrict(t *Term) bool {
 	return found
 }
 
-func preInstantiate(asserts []*Term, focus []*Term) []*Term {
+func preInstantiate(D *Decls, asserts []*Term, focus []*Term) []*Term {
 	all := append(append([]*Term{}, asserts...), focus...)
 	p := collectCandidates(all, focus)
+	// content equality is identity of string ids: streq(a,b) = (sid a = sid b).
+	// For every ground atom streq(a, b) the link to the bytes is made explicit:
+	//   sid a = sid b  ==> len(a) = len(b)  and equal bytes at the candidates
+	//   sid a != sid b ==> len(a) != len(b) or a[w] != b[w] for a fresh w
+	seenEq := map[string]bool{}
+	var wit []*Term
+	type pair struct{ a, b *Term }
+	var pairs []pair
+	for _, t := range all {
+		t.Walk(func(x *Term) {
+			if x.IsSym || x.Op != "streq" || len(seenEq) >= 16 || !isGroundTerm(x) {
+				return
+			}
+			k := x.String()
+			if seenEq[k] {
+				return
+			}
+			seenEq[k] = true
+			a, b := x.Args[0], x.Args[1]
+			w := D.Fresh("w.streq", SInt)
+			wit = append(wit, Or(x, Neq(SLen(a), SLen(b)), And(Le(IntLit(0), w), Lt(w, SLen(a)), Neq(SAt(a, w), SAt(b, w)))))
+			wit = append(wit, Imp(x, Eq(SLen(a), SLen(b))))
+			p.ints = append([]*Term{w}, p.ints...)
+			pairs = append(pairs, pair{a, b})
+		})
+	}
+	for _, pr := range pairs {
+		for _, c := range p.ints {
+			wit = append(wit, Imp(And(StrEq(pr.a, pr.b), Le(IntLit(0), c), Lt(c, SLen(pr.a))), Eq(SAt(pr.a, c), SAt(pr.b, c))))
+		}
+	}
+	p.out = append(p.out, wit...)
 	for _, a := range asserts {
 		if hasQuantStrict(a) {
 			p.walk(nil, a, 0)
 		}
 	}
-	p.engineInstances(all)
+	p.engineInstances(append(append([]*Term{}, all...), p.out...))
 	// second round: index expressions that only appear in the instances just
 	// produced (e.g. tr[pos[k]] after instantiating an invariant at k)
 	have := map[string]bool{}
@@ -283,6 +326,20 @@ func preInstantiate(asserts []*Term, focus []*Term) []*Term {
 // applications that occur, at the candidate integers.
 func (p *preinst) engineInstances(all []*Term) {
 	seen := map[string]bool{}
+	// string identities: sid(a) = sid(b) <=> a, b have the same contents
+	var sids []*Term
+	sidSeen := map[string]bool{}
+	for _, t := range all {
+		t.Walk(func(x *Term) {
+			if !x.IsSym && x.Op == "sid" && len(x.Args) == 1 && isGroundTerm(x) && len(sids) < 14 {
+				if k := x.String(); !sidSeen[k] {
+					sidSeen[k] = true
+					sids = append(sids, x)
+				}
+			}
+		})
+	}
+	_ = sids // sid(a) = sid(b) is streq(a,b) by definition; byte-level links are added per streq atom
 	for _, t := range all {
 		t.Walk(func(x *Term) {
 			if !x.IsSym || len(x.Args) == 0 || !isGroundTerm(x) {
